@@ -60,7 +60,8 @@ def make_tar(files: T.Dict[str, str]) -> bytes:
 
 
 def sub_buildfile(sub: T.Dict[str, T.Any], version: str, marker: str) -> str:
-    s = f"project('foosub', version: {q(version)})\n"
+    dopt = f", default_options: ['default_library={sub['default_library']}']" if sub.get('default_library') else ''
+    s = f"project('foosub', version: {q(version)}{dopt})\n"
     s += f"message('SUBMARK {marker}')\n"
     if not sub.get('configures', True):
         s += "error('subproject refuses to configure')\n"
@@ -81,7 +82,8 @@ class Check:
     shrink_runs = 200
     rule = ('scenario = {system foo absent/1.2.0/2.5.0} x {no subproject, directory already there, wrap-file to be acquired} x '
             '{[provide] entry or not; subproject overrides foo / exposes a variable / neither; configures or errors} x wrap_mode x '
-            'force_fallback_for x 1-3 dependency() calls over version/required/fallback/allow_fallback, plus for wrap-file subprojects: '
+            'force_fallback_for x 1-3 dependency() calls over version/required/fallback/allow_fallback (+ static: with project and subproject '
+            'default_library settings of their own), plus for wrap-file subprojects: '
             'package cache and packagefiles states, recorded hashes right/wrong, patch via URL/packagefiles/patch_directory, diff_files, '
             'and a fake-server fault script per URL (URLError, OSError, truncated body, flipped byte, different archive, missing '
             'Content-Length) injected at fetch/verify/unpack/patch/diff; each world is configured twice. Non-trivial when a fallback or '
@@ -235,6 +237,17 @@ class Check:
         if pre:
             w['pre'] = pre
         w['cmd'] = 'setup' if rng.random() < 0.9 or kind != 'wrap' else 'download'
+        if not pre and rng.random() < 0.3:
+            # every lookup of this world asks for one library flavour (static:); the project and the subproject
+            # have default_library settings of their own. The documented policy does not depend on any of it:
+            # the fallback subproject is configured for the requested flavour.
+            st_ = rng.random() < 0.5
+            for c in calls:
+                c['static'] = st_
+            flavour = 'static' if st_ else 'shared'
+            w['default_library'] = flavour if rng.random() < 0.6 else rng.choice([None, 'static', 'shared', 'both'])
+            if w['sub'] is not None:
+                w['sub']['default_library'] = ('shared' if st_ else 'static') if rng.random() < 0.6 else rng.choice([None, 'static', 'shared', 'both'])
         return w
 
     # ------------------------------------------------------------------ world on disk
@@ -246,7 +259,8 @@ class Check:
         if w.get('sys'):
             with open(os.path.join(pc, 'foo.pc'), 'w') as f:
                 f.write(f"Name: foo\nDescription: system foo\nVersion: {w['sys']}\nLibs: -lfoo\n")
-        lines = ["project('c10', meson_version: '>=0.60.0')\n"]
+        dl = f", default_options: ['default_library={w['default_library']}']" if w.get('default_library') else ''
+        lines = [f"project('c10', meson_version: '>=0.60.0'{dl})\n"]
         for pre in w.get('pre', []):
             if pre['kind'] == 'override':
                 if pre.get('found', True):
@@ -263,6 +277,8 @@ class Check:
                 kw.append('fallback: [' + ', '.join(q(x) for x in c['fallback']) + ']')
             if c.get('allow_fallback') is not None:
                 kw.append(f"allow_fallback: {'true' if c['allow_fallback'] else 'false'}")
+            if c.get('static') is not None:
+                kw.append(f"static: {'true' if c['static'] else 'false'}")
             lines.append(f"d{i} = dependency('foo', {', '.join(kw)})\n")
             lines.append(f"message('DEP {i} found=@0@ type=@1@ version=@2@'.format(d{i}.found(), d{i}.type_name(), d{i}.found() ? d{i}.version() : 'n/a'))\n")
         with open(os.path.join(sd, 'meson.build'), 'w') as f:
